@@ -17,16 +17,16 @@ import (
 
 // Unit is a set of binding files that form one Go package for one build configuration.
 type Unit struct {
-	Table   string   // "stdlib" | "syscall" | "unrestricted" | "unsafe" | "gen"
-	Rel     int      // minor Go release the files target (21, 22); 0 = hand-written, any release
-	Plat    string   // GOOS/GOARCH the unit is type-checked for
-	PlatDep bool     // the tables of this unit are per platform (syscall)
-	Dir     string   // directory of the files
-	Files   []string // files scanned for facts
-	Support []string // files parsed along with them (declare Symbols, replacements, ...)
+	Table   string            // "stdlib" | "syscall" | "unrestricted" | "unsafe" | "gen"
+	Rel     int               // minor Go release the files target (21, 22); 0 = hand-written, any release
+	Plat    string            // GOOS/GOARCH the unit is type-checked for
+	PlatDep bool              // the tables of this unit are per platform (syscall)
+	Dir     string            // directory of the files
+	Files   []string          // files scanned for facts
+	Support []string          // files parsed along with them (declare Symbols, replacements, ...)
 	Extra   map[string]string // synthetic support files (name -> source), e.g. a Symbols declaration
-	Shard   string   // shard label copied into every fact
-	Prefix  string   // path prefix of the file names in the facts (relative to the repository)
+	Shard   string            // shard label copied into every fact
+	Prefix  string            // path prefix of the file names in the facts (relative to the repository)
 }
 
 // Real describes the object (keyPath, name) really declared by the bound package.
@@ -58,10 +58,10 @@ type Entry struct {
 	KeyLast  string `json:"keyLast"` // last element of key
 	KeyPkg   string `json:"keyPkg"`  // name of the package found at keyPath ("" if none)
 	Name     string `json:"name"`
-	Under    bool   `json:"under"` // name starts with '_' (interface wrapper entry)
-	Base     string `json:"base"`  // name without that underscore
-	Form     string `json:"form"`  // value addr lit type other
-	Text     string `json:"text,omitempty"`  // source text of the bound expression
+	Under    bool   `json:"under"`          // name starts with '_' (interface wrapper entry)
+	Base     string `json:"base"`           // name without that underscore
+	Form     string `json:"form"`           // value addr lit type other
+	Text     string `json:"text,omitempty"` // source text of the bound expression
 	RefPkg   string `json:"refPkg"`
 	RefName  string `json:"refName"`
 	RefLocal bool   `json:"refLocal"` // the referenced identifier is declared by the binding package itself
@@ -80,8 +80,19 @@ type Entry struct {
 	WrapMethods []string `json:"wrapMethods"`
 	// number of unexported methods of the interface (such an interface cannot be implemented outside its package)
 	IfaceUnexported int `json:"ifaceUnexported"`
+	// model-level expectation for this name, joined in by the check (C18: ExpectedEmission
+	// of PkgGen.tla; em = "any" when there is none to compare with)
+	Want Want `json:"want"`
 	// does the wrapper struct implement the interface according to go/types: yes | no | n/a
 	Implements string `json:"implements"`
+}
+
+// Want is the expected emission of a name.
+type Want struct {
+	Em      string   `json:"em"` // any value address literal type wrapper skipped none
+	Tok     string   `json:"tok"`
+	Exact   string   `json:"exact"`
+	Methods []string `json:"methods"`
 }
 
 // Method is one method of one interface wrapper (union of the interface's exported
@@ -360,7 +371,7 @@ func (x *extractor) entry(key, name string, v ast.Expr) {
 	x.n++
 	e := Entry{Kind: "entry", ID: fmt.Sprintf("%sE%d", x.idPrefix, x.n), Shard: x.u.Shard, File: x.file, Line: x.fset.Position(v.Pos()).Line,
 		Table: x.u.Table, Rel: x.u.Rel, Plat: x.u.Plat, Key: key, Name: name, Form: "other", Text: x.text(v),
-		Fields: []string{}, IfaceMethods: []string{}, IfaceSince: []int{}, WrapMethods: []string{}, Implements: "n/a"}
+		Fields: []string{}, IfaceMethods: []string{}, IfaceSince: []int{}, WrapMethods: []string{}, Implements: "n/a", Want: Want{Em: "any", Methods: []string{}}}
 	if i := strings.LastIndex(key, "/"); i >= 0 {
 		e.KeyPath, e.KeyLast = key[:i], key[i+1:]
 	} else {
@@ -541,12 +552,14 @@ func Describe(o types.Object) Real {
 			}
 		}
 	case *types.TypeName:
-		if t, ok := o.Type().(*types.Named); ok && t.TypeParams().Len() > 0 {
+		// an instantiated type (alias of Box[int]) has type parameters AND type arguments
+		if t, ok := o.Type().(*types.Named); ok && t.TypeParams().Len() > 0 && t.TypeArgs().Len() == 0 {
 			r.Generic = true
 		}
 		if it, ok := o.Type().Underlying().(*types.Interface); ok {
 			switch {
-			case it.NumMethods() == 0 && it.NumEmbeddeds() != 0:
+			case !it.IsMethodSet():
+				// not a type one can declare a value of (type-set terms, comparable)
 				r.Iface = "constraint"
 			case it.NumMethods() == 0:
 				r.Iface = "empty"
